@@ -18,11 +18,11 @@ import (
 	"sort"
 	"strconv"
 	"strings"
-	"time"
 
 	"github.com/containerd/containerd/v2/pkg/reference"
 	"github.com/containerd/log"
 	"github.com/containerd/stargz-snapshotter/estargz"
+	"github.com/containerd/stargz-snapshotter/estargz/vrt"
 	"github.com/containerd/stargz-snapshotter/fs/config"
 	memorymetadata "github.com/containerd/stargz-snapshotter/metadata/memory"
 	"github.com/containerd/stargz-snapshotter/store"
@@ -1066,7 +1066,27 @@ func copyUses(m map[string]int) map[string]int {
 // execute replays hist on a fresh store. The oracle is evaluated after the last
 // operation only (evalAll=false; the prefix was evaluated when it was a state of its
 // own) or after every operation.
-func execute(fx *fixture, mode, scratch string, hist []op, flt *fault, evalAll bool) (*execResult, error) {
+func execute(fx *fixture, mode, scratch string, hist []op, flt *fault, evalAll bool) (res *execResult, err error) {
+	// store/manager.go is compiled against the cooperative scheduler (for the concurrency part);
+	// a sequential history runs under it with the default schedule: the running thread continues
+	// until it blocks, then the runnable thread with the lowest id goes on. That makes the order of
+	// the per-layer resolver goroutines of getLayer (and of their registry requests) deterministic.
+	rr := vrt.Run(vrt.Config{Chooser: func(vrt.ChoicePoint) int { return 0 }, KeepTimers: true}, func() {
+		res, err = executeBody(fx, mode, scratch, hist, flt, evalAll)
+	})
+	if rr.Broken != "" {
+		return nil, fmt.Errorf("history %s: scheduler: %s", histString(hist), rr.Broken)
+	}
+	if rr.Failure != nil {
+		return nil, fmt.Errorf("history %s: %s\n%s", histString(hist), rr.Failure.Msg, rr.Failure.Stack)
+	}
+	if rr.StepCap {
+		return nil, fmt.Errorf("history %s: step cap", histString(hist))
+	}
+	return res, err
+}
+
+func executeBody(fx *fixture, mode, scratch string, hist []op, flt *fault, evalAll bool) (*execResult, error) {
 	w, err := newInst(fx, mode, scratch, flt)
 	if err != nil {
 		return nil, err
@@ -1088,13 +1108,9 @@ func execute(fx *fixture, mode, scratch string, hist []op, flt *fault, evalAll b
 		reqBefore := w.reg.Count()
 		firedBefore := w.fired
 		ob, cerr := w.step(o)
-		if w.resolutionStarted(o, pre) {
-			// getLayer returns as soon as the wanted layer is there and leaves the image's
-			// other layers resolving in background goroutines: wait for them
-			if !w.st.Quiesce(fx.images[o.Img-1].Spec, 20*time.Second) {
-				return nil, fmt.Errorf("history %s: background layer resolution did not finish", histString(hist[:i+1]))
-			}
-		}
+		// getLayer returns as soon as the wanted layer is there and leaves the image's other
+		// layers resolving in background threads: let them finish (or block for good)
+		vrt.WaitIdle()
 		w.st.Spy()
 		if w.fired && !firedBefore {
 			res.FiredAtOp = i
